@@ -26,7 +26,7 @@ def sh(cmd, cwd=None, env=None, timeout=3600):
     return p.returncode, p.stdout + p.stderr
 
 
-def verify(pid, k):
+def verify(pid, k, tag=""):
     wt = f"/tmp/mut/{pid}"
     out = f"/tmp/mut/{pid}.out"
     patch = f"{out}/patch{k}.diff"
@@ -58,7 +58,7 @@ def verify(pid, k):
     rec["confirmed"] = ok
     print(pid, k, "suite_ok", suite_ok, "demo fails with patch", rc1 != 0, "demo passes without", rc2 == 0)
     if ok:
-        d = f"{SEEDED}/{pid}_{k}"
+        d = f"{SEEDED}/{pid}{tag}_{k}"
         os.makedirs(d, exist_ok=True)
         shutil.copy(patch, f"{d}/patch.diff")
         shutil.copy(demo, f"{d}/demo.rs")
@@ -105,6 +105,6 @@ def run(mid, props):
 
 if __name__ == "__main__":
     if sys.argv[1] == "verify":
-        verify(sys.argv[2], sys.argv[3])
+        verify(sys.argv[2], sys.argv[3], sys.argv[4] if len(sys.argv) > 4 else "")
     elif sys.argv[1] == "run":
         run(sys.argv[2], sys.argv[3:])
